@@ -475,6 +475,23 @@ class State:
                     return None
             if g.kind == 'isinstance' and not isinstance_feasible(self.guards + (g,)):
                 return None
+            if g.kind == 'eq' and len(g.key) == 2:
+                # x == A and x == B cannot both hold for two different constants (class names, string literals): a role that is
+                # MatingMaster is not MatingSlave
+                def _const(t):
+                    t = str(t)
+                    return (t[:1].isupper() and t.isidentifier()) or (len(t) >= 2 and t[0] == t[-1] and t[0] in '\'"')
+                for h in self.guards:
+                    if h.kind == 'eq' and h.pol and len(h.key) == 2 and set(h.key) != set(g.key):
+                        common = set(h.key) & set(g.key)
+                        if len(common) == 1:
+                            a_, = set(h.key) - common
+                            b_, = set(g.key) - common
+                            c_, = common
+                            if _const(a_) and _const(b_) and not _const(c_) and a_ != b_:
+                                if g.pol:
+                                    return None
+                                return self
             # None is an instance of no class of the package: `x is None` after a passed `isinstance(x, C)` (and the other way round)
             if g.kind == 'isnone' and g.pol and any(h.kind == 'isinstance' and h.pol and h.key[0] == g.key[0]
                                                      and 'NoneType' not in h.key[1] for h in self.guards):
